@@ -125,6 +125,77 @@ def enc_obj(o):
     return [o['id'], [[sx_str(n), ev(v)] for n, v in o['cls']], [[sx_str(n), ev(v)] for n, v in o['inst']]]
 
 
+def wrapper_clash(case, desc):
+    """add_model raises: custom separator and the model defines is_<top> / to_<top> itself"""
+    cfg = case['cfg']
+    if cfg['sep'] == '_':
+        return False
+    names = set(n for n, _ in desc['cls'] + desc['inst'])
+    return any('is_' + t[0] in names or (cfg['auto'] and 'to_' + t[0] in names) for t in case['forest'])
+
+
+EVENT_IDS = {'go': 0, 'up': 1, 'inner': 2}
+
+
+def seg_ids(case):
+    segs = sorted(set(x for p in paths_of(case['forest']) for x in p))
+    return {n: i for i, n in enumerate(segs)}
+
+
+def configs_of(case):
+    """the state value (list of active paths) of every registered model after every operation"""
+    models = []
+    out = []
+    for op in case['ops']:
+        if op[0] == 'model':
+            if all(m[0] != op[1]['id'] for m in models) and not wrapper_clash(case, op[1]):
+                models.append([op[1]['id'], [op[2]]])
+        else:
+            for m in models:
+                if m[0] == op[1]:
+                    m[1] = op[2]
+        out.append([list(m[1]) for m in models])
+    return out
+
+
+def h_machine_sx(defs, root_events):
+    """an hmachine in the format of HsmIO.v; defs = [(id, local events, child defs)], events = [(eid, [(src, dst)])]"""
+    def ev(evs):
+        return [[e, [[list(s), [] if d is None else [list(d)], [], [], [], []] for s, d in ts]] for e, ts in evs]
+
+    def sd(d):
+        n, evs, kids = d
+        return [n, [], [], [], False, [], [], ev(evs), [sd(k) for k in kids]]
+    return [[sd(d) for d in defs], ev(root_events), [], [], [], [], [], [], False, False]
+
+
+def group_events(triples):
+    """[(eid, src, dst)] -> [(eid, [(src, dst)])] in first-occurrence order"""
+    out = []
+    for e, s, d in triples:
+        for item in out:
+            if item[0] == e:
+                item[1].append((s, d))
+                break
+        else:
+            out.append([e, [(s, d)]])
+    return out
+
+
+def enc_h(case):
+    ids = seg_ids(case)
+    sep = case['cfg']['sep']
+
+    def pid(p):
+        return [ids[x] for x in p]
+
+    def defs(forest):
+        return [(ids[n], [], defs(kids)) for n, kids in forest]
+    root = group_events([(EVENT_IDS[t], pid(src.split(sep)), pid(dst.split(sep))) for t, src, dst in case['transitions']])
+    configs = [[pid(p) for p in cfgm] for step in configs_of(case) for cfgm in step]
+    return [h_machine_sx(defs(case['forest']), root), [pid(p) for p in paths_of(case['forest'])], configs]
+
+
 def enc(case):
     c = case['cfg']
     ops = []
@@ -133,7 +204,8 @@ def enc(case):
             ops.append([0, enc_obj(op[1]), [sx_str(s) for s in op[2]]])
         else:
             ops.append([1, op[1], [[sx_str(s) for s in p] for p in op[2]]])
-    return [1, [sx_str(c['sep']), bool(c['auto']), bool(c['over'])], [enc_tree(t) for t in case['forest']], ops]
+    return [3, [[sx_str(c['sep']), bool(c['auto']), bool(c['over'])], [enc_tree(t) for t in case['forest']], ops],
+            enc_h(case)]
 
 
 # ------------------------------------------------------------------ implementation
@@ -298,6 +370,7 @@ def impl(case):
         return bad
 
     steps = []
+    h_rows = []
     for op in case['ops']:
         res = [0]
         try:
@@ -314,10 +387,20 @@ def impl(case):
         except Exception as e:   # noqa
             res = [1, c11.exn_code(e)]
         steps.append([res, observe()])
-    return [1, [sx_str(n) for n in machine.get_nested_state_names()], steps, extra()]
+        # the public is_state behind the helpers, for every registered model and every state
+        for mid, model in models:
+            h_rows.append([[bool(machine.is_state(ref(p), model)), bool(machine.is_state(ref(p), model, allow_substates=True))]
+                           for p in paths])
+    h_trig = [sorted(set(EVENT_IDS[e] for e in machine.get_triggers(member(p)) if e in EVENT_IDS)) for p in paths]
+    return [3, [1, [sx_str(n) for n in machine.get_nested_state_names()], steps, extra()], [1, h_rows, h_trig]]
 
 
 def canon(case, obs):
+    if isinstance(obs, list) and obs and obs[0] == 3:
+        h = obs[2]
+        if isinstance(h, list) and h and h[0] == 1:
+            h = [1, h[1], [sorted(set(l)) for l in h[2]]]
+        return [3, canon(case, obs[1]), h]
     if len(obs) == 4:
         return [obs[0], obs[1], obs[2], []] if not obs[3] else obs
     return obs + [[]]
@@ -353,6 +436,8 @@ def in_envelope(case):
 
 
 def oracle(case, obs):
+    if obs[0] == 3:
+        return oracle(case, obs[1])
     cfg = case['cfg']
     if obs[3]:
         return 'get_triggers / get_transitions(delegate) of the hierarchical machine disagree: %r' % (obs[3][:2],)
@@ -391,6 +476,10 @@ def oracle(case, obs):
 
 
 def nontrivial(case, obs):
+    if obs[0] == 3:
+        obs = obs[1]
+    if not isinstance(obs, list) or obs[0] != 1:
+        return False
     if not obs[2]:
         return False
     depth = max(len(p) for p in paths_of(case['forest']))
@@ -400,6 +489,14 @@ def nontrivial(case, obs):
 def stats(case, obs, dist):
     def bump(k, n=1):
         dist[k] = dist.get(k, 0) + n
+    if obs[0] == 3:
+        if isinstance(obs[2], list) and obs[2][0] == 1:
+            bump('hsm_h_is_state_answers', sum(len(r) for r in obs[2][1]))
+            bump('hsm_h_get_triggers_nonempty', sum(1 for l in obs[2][2] if l))
+        obs = obs[1]
+    if not isinstance(obs, list) or obs[0] != 1:
+        bump('hsm_undecodable')
+        return
     bump('hsm_sep_' + case['cfg']['sep'])
     if case['cfg'].get('enum'):
         bump('hsm_enum')
